@@ -274,7 +274,7 @@ func init() {
 					for n := 0; n <= top; n++ {
 						out = append(out, csi("H_C02", s, cfg, n))
 					}
-					if !s.heavy {
+					if !s.heavy && !((s.name == "Mls" || s.name == "Mlr") && cfg[0] > 2 && tier != "thorough") {
 						// the same length contract when one executed division has a zero denominator
 						// (NaN / Inf natively): values are exempt there, the number of values is not
 						c := csi("H_C02", s, cfg, w+2)
